@@ -21,8 +21,46 @@ TRUSTED_BASE = [
 ]
 
 
+# the lifecycle of an operator as the statement of C02 gives it (PENDING -> ASSIGNED -> RUNNING -> COMPLETED, FAILED from ASSIGNED or
+# RUNNING and retryable back to ASSIGNED, SUSPENDING from ASSIGNED and back to PENDING, nothing else).  The contracts read the table from
+# the source, so the table itself is pinned here: a changed table is a failed obligation, not a silently different specification.
+LIFECYCLE = {"PENDING": {"ASSIGNED"}, "ASSIGNED": {"RUNNING", "SUSPENDING", "FAILED"}, "RUNNING": {"COMPLETED", "FAILED"},
+             "SUSPENDING": {"PENDING"}, "COMPLETED": set(), "FAILED": {"ASSIGNED"}}
+
+
+def scan_lifecycle_table(prog, tags):
+    import ast
+    node = prog.const_nodes.get("eudoxia.workload.runtime_status:VALID_TRANSITIONS")
+    got, why = None, ""
+    try:
+        if isinstance(node, ast.Dict):
+            got = {k.attr: {e.attr for e in v.elts} for k, v in zip(node.keys, node.values)}
+        else:
+            why = "VALID_TRANSITIONS is no longer a dictionary literal"
+    except Exception as e:
+        why = f"VALID_TRANSITIONS cannot be read: {e}"
+    ok = got == LIFECYCLE
+    if got is not None and not ok:
+        extra = sorted(f"{a}->{b}" for a, bs in got.items() for b in bs if b not in LIFECYCLE.get(a, set()))
+        missing = sorted(f"{a}->{b}" for a, bs in LIFECYCLE.items() for b in bs if b not in got.get(a, set()))
+        why = f"edges not in the statement: {extra}; edges of the statement missing: {missing}"
+    return scan.ScanResult("scan:lifecycle-table", ok, why if not ok else "VALID_TRANSITIONS is exactly the lifecycle of the statement", tags)
+
+
+def scan_constant(prog, key, want, why, tags):
+    """a number the property statement fixes and the contracts read from the source"""
+    got = prog.consts.get(key, "<not a literal>")
+    return scan.ScanResult(f"scan:constant:{key.split(':')[1]}", got == want,
+                           f"{key} = {got!r} as the statement says ({why})" if got == want else f"{key} is {got!r}, the statement says {want!r} ({why})", tags)
+
+
+def _scan_disk(prog, S, tags):
+    return [scan_constant(prog, "eudoxia.utils.consts:DISK_SCAN_GB_SEC", 20, "20 GB per simulated second of I/O / write-out", tags)]
+
+
 def _scans_state_writers(prog, S, tags):
     return [
+        scan_lifecycle_table(prog, tags),
         scan.scan_writers(prog, "state-writers", {"operator_states", "state_counts"},
                           {"PipelineRuntimeStatus.__init__", "PipelineRuntimeStatus.transition"}, tags),
         scan.scan_transitions(prog, {
@@ -63,9 +101,9 @@ PROPS = {
     "C02": dict(scans=_scans_state_writers),
     "C03": dict(scans=_scans_pool_writers),
     "C04": dict(scans=_scans_pool_writers),
-    "C05": dict(scans=lambda p, s, t: [scan.scan_immutables(p, s, t)]),
-    "C09": dict(scans=lambda p, s, t: [scan.scan_immutables(p, s, t)]),
-    "C10": dict(scans=_scans_state_writers),
+    "C05": dict(scans=lambda p, s, t: [scan.scan_immutables(p, s, t)] + _scan_disk(p, s, t)),
+    "C09": dict(scans=lambda p, s, t: [scan.scan_immutables(p, s, t)], native_budget=20),
+    "C10": dict(scans=lambda p, s, t: _scans_state_writers(p, s, t) + _scan_disk(p, s, t)),
     "C11": dict(scans=lambda p, s, t: [scan.scan_immutables(p, s, t)]),
     "C13": dict(level="other", extra=lambda prog, S, tier, seed: [__import__("extras").run_child("trace_float_grid", REPO, 20000 if tier == "quick" else 100000),
                                                     __import__("extras").run_child("trace_replay_random", REPO, seed, 300 if tier == "quick" else 3000),
@@ -89,7 +127,9 @@ PROPS = {
                 extra=lambda prog, S, tier, seed: [__import__("extras").run_child("get_pool_exhaustive", REPO)]),
     "C16": dict(scans=_scan_suspend, native_budget=25),
     "C17": dict(scans=_scan_suspend),
-    "C18": dict(scans=_scan_suspend, native_budget=25),
+    "C18": dict(scans=lambda p, s, t: _scan_suspend(p, s, t) + [scan_constant(p, "eudoxia.scheduler.overbook:MAX_FAILURES", 3,
+                                                                                "a pipeline is abandoned once three of its containers have failed", t)],
+                native_budget=25),
 }
 
 
